@@ -142,11 +142,15 @@ func init() {
 			sys := newSysCases("quick")
 			nRand := size(tier, 150000, 2000000)
 			nRace := size(tier, 48, 400)
+			var src *strSource
 			return &harness.Plan{
 				N:         sys.n() + nRand + nRace,
 				Race:      true,
 				NoRaceToo: true,
-				Setup:     func(c *harness.Ctx) { hooksOn() },
+				Setup: func(c *harness.Ctx) {
+					hooksOn()
+					src = newStrSource()
+				},
 				Run: func(c *harness.Ctx, k int) {
 					switch {
 					case k < sys.n():
@@ -161,7 +165,12 @@ func init() {
 						r := c.Rand()
 						g := gen.New(r)
 						var d *diffCase
-						if r.Intn(3) == 0 {
+						if x := r.Intn(6); x == 0 && src.err == nil {
+							var ok bool
+							if d, ok = stringCase(c, r, g, src); !ok {
+								return
+							}
+						} else if x < 3 {
 							d = randomCase(r, g, false)
 						} else {
 							d = &diffCase{P: writePronePath(r, g)}
